@@ -156,3 +156,17 @@ Example c15_nonvacuous_tuple :
   fixed_width t = None /\ fixed_width (TOpt (TTup [TU 2; TBool])) = Some 4%nat /\
   encode (TOpt (TU 4)) VNone = [0;0;0;0;0] /\ min_encoded_key (TOpt (TU 8)) = Some [0;0;0;0;0;0;0;0;0].
 Proof. vm_compute. repeat split; reflexivity. Qed.
+
+(* ------------------------------------------------------------------------------------------------
+   Tie to the code (Gen/Fns.v is regenerated from complex_types.rs on every run by tools/gen_fns.py): the
+   varint length header of the model is what encode_varint_len appends to its output buffer, and the
+   checked conversions of the code succeed for every length below 4 GiB. *)
+From RV Require Import Gen.FnsLib Gen.Fns Gen.FnsTypesP.
+
+Theorem c15_code_encode_varint_len_is_model : forall len out,
+  Fns.encode_varint_len len out = (out ++ KeyTypes.encode_varint_len len)%list.
+Proof. exact encode_varint_len_is_model. Qed.
+
+Theorem c15_code_encode_varint_len_guard_holds : forall len out, (len < 2 ^ 32)%N ->
+  Fns.encode_varint_len_guard len out = true.
+Proof. exact encode_varint_len_guard_u32. Qed.
